@@ -237,7 +237,27 @@ def build(tier="quick", seed=0):
                 b.add(Obligation(oid=f"{fkey}::ensures:modal_sum[{modal}:static={int(st)}][{NAMES6[k]}]", fn=fkey,
                                  clause=f"sum over modes of {NAMES6[k]} == non-modal {plain} {NAMES6[k]}", goal=sp.Eq(tm[k], tp[k], evaluate=False), hyps=hy, rels=RELS, backends=("qqnf",),
                                  meta=dict(impl=modal, other=plain, use_static=st, clause="modal_sum", component=k)))
+    # mask structure (what makes the reductions hold AT spin-orbit resonances too, where a mode's frequency is exactly zero): with use_static the
+    # zero-frequency modes keep their (static) contribution in every variant - no mode is masked; without it, a modal variant and its non-modal
+    # counterpart mask exactly the same frequencies
+    def masked(r):
+        return sorted(str(canon_abs(sp.expand(sp.sympify(f_)))) for f_ in r[-1].values())
+    for (name, st), r in sorted(res.items(), key=lambda kv: (kv[0][0], kv[0][1])):
+        if r is None or not st:
+            continue
+        fkey = PKG + IMPL[name][0] + "::tidal_potential"
+        ground(b, f"{fkey}::ensures:mask_structure[{name}:static=1]", fkey, "ensures (use_static=True) no mode is switched off by the frequency mask: a mode whose frequency is exactly zero keeps its static contribution",
+               len(r[-1]) == 0, detail=f"masked frequencies: {masked(r)[:6]}", impl=name, use_static=True, cl="mask_structure",
+               refuted_model=None if len(r[-1]) == 0 else dict(masked=str(masked(r)[:4]), hint="rotation_frequency == orbital_frequency (or 2 Omega == 3 n) with use_static=True"))
+    for modal, plain in (("nsr_modes", "nsr"), ("obliquity_nsr_modes", "obliquity_nsr"), ("gen_obliquity_nsr_modes", "gen_obliquity_nsr")):
+        rm, rp = res.get((modal, False)), res.get((plain, False))
+        if rm is None or rp is None:
+            continue
+        fkey = PKG + IMPL[modal][0] + "::tidal_potential"
+        ground(b, f"{fkey}::ensures:mask_structure[{modal}~{plain}:static=0]", fkey, "ensures (use_static=False) the modal variant and its non-modal counterpart mask the same frequencies (their sums agree at resonances as well)",
+               masked(rm) == masked(rp), detail=f"{len(rm[-1])} vs {len(rp[-1])} masks", impl=modal, other=plain, use_static=False, cl="mask_structure")
     limits(b, res, hy)
+    b.replayer("*::ensures:mask_structure*", _replay_masks)
     b.replayer("*", lambda ob, r: replay(dict(obligation=ob.oid, meta=ob.meta)))
     b.assume("sin / cos of integer combinations of (colatitude, longitude, obliquity/2, n t, Omega t) are expanded by angle addition; s^2 + c^2 = 1 per base angle; colatitude in (0, pi) so sqrt(1 - cos^2) = sin")
     b.assume("the mask freq > MIN_SPIN_ORBITAL_DIFF is an opaque 0/1 factor per mode; modal sums and limits are taken with all masks on (distinct non-zero frequencies)")
@@ -407,3 +427,44 @@ def replay(doc):
         bad = abs(v["total"][k] - v["other_total"][k]) > tol * osc
     rec["confirmed"] = bool(bad)
     return rec
+
+
+_MASK_CODE = r'''
+import numpy as np, importlib
+pairs = [("nsr_med_eccen_no_obliquity", "nsr_modes_med_eccen_no_obliquity", False), ("nsr_med_eccen_med_obliquity", "nsr_modes_med_eccen_med_obliquity", True), ("nsr_med_eccen_gen_obliquity", "nsr_modes_med_eccen_gen_obliquity", True)]
+R_, lon, col, tm = 1.8e6, np.asarray([0.3, 1.1, 2.9]), np.asarray([0.4, 1.2, 2.2]), np.asarray([1.0e4, 5.3e4, 9.9e4])
+n = 2 * np.pi / (1.77 * 86400.); e, M, a = 0.07, 1.9e27, 4.2e8
+bad = []
+ref0 = None
+for plain, modal, has_obl in pairs:
+    fp = importlib.import_module("TidalPy.tides.potential." + plain).tidal_potential
+    fm = importlib.import_module("TidalPy.tides.potential." + modal).tidal_potential
+    for ratio in (1.0, 1.5):
+        for st in (True, False):
+            kw = dict(use_static=st)
+            args = (R_, lon, col, tm, n, n * ratio, e) + ((0.0,) if has_obl else ()) + (M, a)
+            try:
+                p = fp(*args, **kw)
+                if isinstance(p, tuple) and len(p) == 3 and isinstance(p[2], dict):      # the non-modal variants return one pseudo-mode in the same container
+                    p = [sum(np.asarray(v[k]) for v in p[2].values()) for k in range(6)]
+                fr, md, pots = fm(*args, **kw)
+            except Exception as ex:
+                bad.append([plain, ratio, st, "raised " + repr(ex)[:80]]); continue
+            tot = [sum(np.asarray(v[k]) for v in pots.values()) for k in range(6)]
+            for k in (2, 4, 5) if st else range(6):       # with the static term U, U_theta, U_theta_theta of the modal variants are a recorded finding
+                d = float(np.max(np.abs(np.asarray(p[k]) - tot[k]))); sc = float(np.max(np.abs(np.asarray(p[0])))) + 1e-300
+                if d > 1e-9 * sc: bad.append([plain, "sum of modes vs non-modal", ratio, st, k, d / sc])
+            if not has_obl and st: ref0 = {**(ref0 or {}), ratio: p}
+            if has_obl and st and ref0 and ratio in ref0:
+                for k in range(6):
+                    d = float(np.max(np.abs(np.asarray(p[k]) - np.asarray(ref0[ratio][k])))); sc = float(np.max(np.abs(np.asarray(ref0[ratio][0])))) + 1e-300
+                    if d > 1e-9 * sc: bad.append([plain, "zero obliquity vs no-obliquity variant", ratio, st, k, d / sc])
+result = bad[:8]
+'''
+
+
+def _replay_masks(ob, res):
+    from tpv import native
+    out = native.run(dict(code=_MASK_CODE), timeout=900)
+    return dict(replayed=True, native=out, confirmed=bool(out.get("result")) or "exception" in out,
+                what="at the 1:1 and 3:2 spin-orbit resonances, with and without the static term: sum of modes vs non-modal variant, and obliquity variants at zero obliquity vs the no-obliquity variant")
